@@ -19,7 +19,10 @@ RULE = ("TLC enumerates (a) every polyline of 1..4 segments over the steps (1,0)
         "find_lanelet_successors_in_range and find_lanelet_predecessors_in_range under a 5 s alarm. Plus seeded random "
         "cases beyond TLC's bounds: polylines of up to 10 vertices in all directions with steps from the triples "
         "3-4-5, 5-12-13, 8-15-17 (scaled), non-parallel (wedge) boundaries, arc lengths on the 1/2, 1/4, 1/8 grid; "
-        "merges of such lanes (1..6 segments per part, uneven spacing); chains of 2..4 joined lanes merged by "
+        "merges of such lanes (1..6 segments per part, uneven spacing); array representations: every <= 2-segment "
+        "TLC polyline (every 5th longer one in quick) x similarity units sqrt(1,2,5,10) x {float64, int64, int32, "
+        "float32, Fortran-ordered, sliced, sliced int64}; half of the merge and graph cases rotate through the same "
+        "units x representations (graph lanelet lengths len*sqrt(U) as range thresholds); chains of 2..4 joined lanes merged by "
         "all_lanelets_by_merging_successors/predecessors_from_lanelet, each result treated as a lanelet; digraphs on 5-6 lanelets with lengths 1..4 and ranges 1..15/100. "
         "(d) histories: TLC enumerates every sequence of <= 2 (thorough 3) tokens from {translate_rotate x2, "
         "LaneletNetwork.translate_rotate, center/left/right setter, merge with a successor (both orders), draw+render "
@@ -128,7 +131,20 @@ def _rand_merge_case(rng):
     ol, orr = (rng.randint(-3, 3), rng.randint(1, 3)), (rng.randint(-3, 3), -rng.randint(1, 3))
     lane = lambda c: {"l": [[x + ol[0], y + ol[1]] for x, y in c], "c": c,
                       "r": [[x + orr[0], y + orr[1]] for x, y in c]}
-    return {"kind": "merge", "a": lane(ca), "b": lane(cb), "src": "random"}
+    return _variant({"kind": "merge", "a": lane(ca), "b": lane(cb), "src": "random"}, rng.randrange(1000))
+
+
+_UNITS = {1: (1, 0), 2: (1, 1), 5: (1, 2), 10: (1, 3)}        # LaneletGeom.tla SimOf
+
+
+def _variant(case, k):
+    """every 2nd case stays plain (U = 1, float64); the others rotate through units x representations"""
+    if k % 2 == 0:
+        return case
+    k //= 2
+    U = (2, 5, 10, 1)[k % 4]
+    case.update({"U": U, "p": _UNITS[U][0], "q": _UNITS[U][1], "dt": DTYPES[(k // 4) % len(DTYPES)]})
+    return case
 
 
 def _rand_chain_case(rng):
@@ -175,14 +191,19 @@ def _rand_graph_case(rng):
     lens = [rng.randint(1, 4) for _ in range(n)]
     starts = rng.sample(range(1, n + 1), 3)
     ranges = rng.sample(range(1, 16), 2) + [100]
-    return {"kind": "graph", "succ": succ, "len": lens, "queries": [[s, r] for s in starts for r in ranges],
-            "src": "random"}
+    return _variant({"kind": "graph", "succ": succ, "len": lens, "queries": [[s, r] for s in starts for r in ranges],
+                     "src": "random"}, rng.randrange(1000))
 
 
 def cases(ctx):
     out = []
+    nd = 0
     for c in ctx.gen("MC_LaneletGeom", "GEN_LaneletGeom_poly.cfg"):
         c["src"] = "tlc"
+        if c["kind"] == "dpoly" and not ctx.thorough:  # quick: all <= 2-segment polylines, every 5th of the others
+            nd += 1
+            if len(c["c"]) > 3 and nd % 5:
+                continue
         out.append(c)
     groups = {}
     for q in ctx.gen("MC_LaneletGeom", "GEN_LaneletGeom_graph4.cfg" if ctx.thorough else "GEN_LaneletGeom_graph.cfg",
@@ -191,6 +212,7 @@ def cases(ctx):
         g = groups.get(key)
         if g is None:
             g = groups[key] = {"kind": "graph", "succ": q["succ"], "len": q["len"], "queries": [], "src": "tlc"}
+            _variant(g, len(groups))                   # units / array representations in rotation (U = 1, f64 most often)
             out.append(g)
         g["queries"].append([q["start"], q["range"]])
     for c in ctx.gen("MC_LaneletGeom", "GEN_LaneletGeom_hist3.cfg" if ctx.thorough else "GEN_LaneletGeom_hist.cfg",
@@ -209,16 +231,19 @@ def cases(ctx):
 
 def nontrivial(case):
     t = lambda p: tuple(tuple(v) for v in p)
+    var = (case.get("U", 1), case.get("dt", "f64"))
+    if case["kind"] == "dpoly":
+        return ("dpoly", t(case["c"])) + var
     if case["kind"] == "poly":
         return ("poly", t(case["c"]), t(case["l"]), t(case["r"])) if len(case["c"]) >= 3 else None
     if case["kind"] == "merge":
-        return ("merge", t(case["a"]["c"]), t(case["b"]["c"]), t(case["a"]["l"]))
+        return ("merge", t(case["a"]["c"]), t(case["b"]["c"]), t(case["a"]["l"])) + var
     if case["kind"] == "hist":
         return ("hist", t(case["base"]["c"]), t(case["base"]["l"]), tuple(case["hist"])) if case["hist"] else None
     if case["kind"] == "chain":
         return ("chain",) + tuple(t(ln["c"]) for ln in case["lanes"]) + (t(case["lanes"][0]["l"]), case["range"])
     if any(case["succ"]):
-        return ("graph", t(case["succ"]), tuple(case["len"]))
+        return ("graph", t(case["succ"]), tuple(case["len"])) + var
     return None
 
 
@@ -247,7 +272,8 @@ def _call(f):
 
 
 def _grid(x, den):
-    """float -> (grid index k with value k/den, 1 if |x - k/den| <= 1e-9 else 0): a projection, not a judgement."""
+    """float -> (grid index k with value k/den, precision class: 2 = within 1e-9, 1 = within 1e-5 (relative to
+    max(1,|x|)), 0 = off): a projection, not a judgement - the spec says which class an event needs."""
     try:
         x = float(x)
     except Exception:
@@ -255,14 +281,74 @@ def _grid(x, den):
     if not math.isfinite(x) or abs(x * den) >= 2 ** 31 - 1:
         return 0, 0
     k = int(round(x * den))
-    return k, int(abs(x - k / den) <= 1e-9)
+    err = abs(x - k / den)
+    return k, 2 if err <= 1e-9 else (1 if err <= 1e-5 * max(1.0, abs(x)) else 0)
 
 
-def _lanelet(lid, lane_l, lane_c, lane_r, **kw):
+# ---- frames: the abstract lattice lanelet of a case vs. the arrays handed to the library ------------------------------
+# F = {scale K, p, q, U = p^2 + q^2, dt}: real vertex = (p + qi) * abstract vertex / K, real length = abstract * sqrt(U) / K
+# (LaneletGeom.tla (2c): similar lanelets; K: _find_scale).  dt = array representation.
+_F0 = {"scale": 1, "p": 1, "q": 0, "U": 1, "dt": "f64"}
+DTYPES = ("f64", "i64", "i32", "f32", "fortran", "sliced", "isliced")
+
+
+def _frame(case=None, **kw):
+    f = dict(_F0)
+    if case:
+        f.update({k: case[k] for k in ("p", "q", "U", "dt") if k in case})
+    f.update(kw)
+    return f
+
+
+def _arr(pts, dt):
+    """integer lattice points -> numpy array in the representation named dt (every one holds them exactly)"""
     import numpy as np
+    if dt == "i64":
+        return np.array(pts, dtype=np.int64)
+    if dt == "i32":
+        return np.array(pts, dtype=np.int32)
+    if dt == "f32":
+        return np.array(pts, dtype=np.float32)
+    if dt == "fortran":
+        return np.asfortranarray(np.array(pts, dtype=float))
+    if dt in ("sliced", "isliced"):                    # non-contiguous view in both axes
+        big = np.zeros((2 * len(pts), 3), dtype=float if dt == "sliced" else np.int64)
+        big[::2, :2] = pts
+        return big[::2, :2]
+    return np.array(pts, dtype=float)
+
+
+def _real(pts, F):
+    """abstract lattice polyline -> the array handed to the library (similarity image, representation dt)"""
+    p, q = F["p"], F["q"]
+    assert F["scale"] == 1
+    return _arr([[p * x - q * y, q * x + p * y] for x, y in pts], F["dt"])
+
+
+def _abs_len(x, F):
+    return float(x) / math.sqrt(F["U"]) * F["scale"]
+
+
+def _abs_pt(pt, F):
+    a, b = float(pt[0]), float(pt[1])
+    return ((F["p"] * a + F["q"] * b) / F["U"] * F["scale"], (-F["q"] * a + F["p"] * b) / F["U"] * F["scale"])
+
+
+def _real_arc(sn, sd, F):
+    return sn / sd / F["scale"] * math.sqrt(F["U"])
+
+
+def _dsig(F):
+    """shape of the representation for sigs: dtype family x rational / irrational segment lengths"""
+    fam = {"f64": "f64", "i64": "int", "i32": "int", "isliced": "int", "f32": "f32", "fortran": "layout",
+           "sliced": "layout"}[F["dt"]]
+    return "dtype:" + fam + ("/irrational" if F["U"] != 1 else "/rational")
+
+
+def _lanelet(lid, lane_l, lane_c, lane_r, F=None, **kw):
     from commonroad.scenario.lanelet import Lanelet
-    return Lanelet(np.array(lane_l, dtype=float), np.array(lane_c, dtype=float), np.array(lane_r, dtype=float),
-                   lid, **kw)
+    F = F or _F0
+    return Lanelet(_real(lane_l, F), _real(lane_c, F), _real(lane_r, F), lid, **kw)
 
 
 def _int_cum(c):
@@ -284,26 +370,35 @@ def _shape(sn, sd, cum):
     return "interior"
 
 
-def _distance_event(la, c, den, sig, ev, scale=1):
-    """scale: c holds scale * (the lanelet's vertices); returned lengths are multiplied by it before gridding"""
+def _fields(F):
+    return {"scale": F["scale"], "U": F["U"], "dt": F["dt"]}
+
+
+def _distance_event(la, c, den, sig, ev, F=None):
+    """c: the abstract polyline (frame F); returned lengths are mapped into that frame before gridding"""
+    F = F or _F0
     st, d = _call(lambda: [float(v) for v in la.distance])
-    ev.append({"op": "distance", "sig": sig, "st": st, "c": c, "den": den, "scale": scale,
-               "res": [list(_grid(v * scale, den)) for v in d] if st == "ok" else []})
+    ev.append(dict({"op": "distance", "sig": sig, "st": st, "c": c, "den": den,
+                    "res": [list(_grid(_abs_len(v, F), den)) for v in d] if st == "ok" else []}, **_fields(F)))
 
 
-def _interp_events(pick, c, le, r, sns, sd, den, sigpref, ev, scale=1):
-    """interpolate_position at every arc length sn/sd of sns on the lanelet pick(n); logs what came back."""
+def _interp_events(pick, c, le, r, sns, sd, den, sigpref, ev, F=None):
+    """interpolate_position at every (abstract) arc length sn/sd of sns on the lanelet pick(n); logs what came back,
+    mapped into the abstract frame."""
+    F = F or _F0
+    plain = F["scale"] == 1 and F["U"] == 1
     cum = _int_cum(c)
     for n, sn in enumerate(sns):
         obj = pick(n)
         # integral arc lengths are passed alternately as int and as float (both are real numbers)
-        arg = sn // sd if (sn % sd == 0 and n % 2 == 1 and scale == 1) else sn / sd / scale
+        arg = sn // sd if (sn % sd == 0 and n % 2 == 1 and plain) else _real_arc(sn, sd, F)
         if sn == sd * cum[-1]:
-            # "0 <= s <= length": the full length is the lanelet's own length (after a quarter turn it can differ from
-            # the nominal integer by an ulp, and interpolate_position asserts s <= distance[-1])
+            # "0 <= s <= length": the full length is the lanelet's OWN length (a float sum can differ from the nominal
+            # value by rounding, and interpolate_position asserts s <= distance[-1]); a length that is really off is
+            # reported by the distance event
             try:
-                own = float(obj.distance[-1])
-                if abs(own - sn / sd / scale) <= 1e-9 and own < sn / sd / scale:
+                own, nom = float(obj.distance[-1]), _real_arc(sn, sd, F)
+                if own < nom and nom - own <= 1e-5 * max(1.0, nom):
                     arg = own
             except Exception:
                 pass
@@ -312,15 +407,16 @@ def _interp_events(pick, c, le, r, sns, sd, den, sigpref, ev, scale=1):
         if st == "ok":
             try:
                 pts = []
-                for p in res[:3]:
-                    kx, ex = _grid(p[0] * scale, den)
-                    ky, ey = _grid(p[1] * scale, den)
-                    pts.append([kx, ky, ex & ey & int(len(p) == 2)])
+                for pt in res[:3]:
+                    ax, ay = _abs_pt(pt, F)
+                    kx, ex = _grid(ax, den)
+                    ky, ey = _grid(ay, den)
+                    pts.append([kx, ky, min(ex, ey) if len(pt) == 2 else 0])
             except Exception as ex:
                 st, pts = "exc:result:" + type(ex).__name__, [[0, 0, 0]] * 3
-        ev.append({"op": "interpolate", "sig": sigpref + (_shape(sn, sd, cum) if sigpref.endswith("/") else ""),
-                   "st": st, "c": c, "l": le, "r": r,
-                   "sn": sn, "sd": sd, "den": den, "scale": scale, "res": pts})
+        ev.append(dict({"op": "interpolate", "sig": sigpref + (_shape(sn, sd, cum) if sigpref.endswith("/") else ""),
+                        "st": st, "c": c, "l": le, "r": r, "sn": sn, "sd": sd, "den": den, "res": pts},
+                       **_fields(F)))
 
 
 def _exec_poly(case):
@@ -338,13 +434,36 @@ def _exec_poly(case):
 _SCALES = (1, 4, 16, 2, 8, 5, 20, 80, 10, 40)
 
 
-def _find_scale(m):
+def _exec_dpoly(case):
+    """the same lattice polyline handed to Lanelet in the representation case["dt"], as its image under the
+    similarity p + qi (segment lengths k * sqrt(U)); a fresh object per group of queries"""
+    c, le, r = case["c"], case["l"], case["r"]
+    F = _frame(case)
+    cum = _int_cum(c)
+    hs = [b - a for a, b in zip(cum, cum[1:])]
+    sd, den = 2, 2
+    for h in hs:
+        den = _lcm(den, 2 * h)
+    sns = sorted({2 * v for v in cum} | {2 * cum[k] + hs[k] for k in range(len(hs))})
+    ev = []
+    la = _lanelet(1, le, c, r, F)
+    _distance_event(la, c, den, "distance/" + _dsig(F), ev, F=F)
+    cold = _lanelet(2, le, c, r, F)
+    _interp_events(lambda n: cold if n % 2 else la, c, le, r, sns, sd, den, "interpolate/" + _dsig(F), ev, F=F)
+    return ev
+
+
+def _find_scale(m, F=None):
     """smallest listed K such that K * (the lanelet's current vertices) are integer points with positive integer
     segment lengths.  Arc length and interpolation are homogeneous, so the spec may judge the K-fold enlarged lanelet:
     a projection that keeps the oracle exact when a vertex sits on a finer grid (e.g. moved 0.75 along a segment)."""
     import numpy as np
     try:
         arrs = [np.asarray(a, dtype=float) for a in (m.center_vertices, m.left_vertices, m.right_vertices)]
+        if F is not None and F["U"] != 1:              # back into the case's abstract frame (inverse similarity)
+            p, q, U = F["p"], F["q"], F["U"]
+            arrs = [np.column_stack(((p * a[:, 0] + q * a[:, 1]) / U, (-q * a[:, 0] + p * a[:, 1]) / U))
+                    for a in arrs]
     except Exception:
         return None
     if any(a.ndim != 2 or a.shape[1] != 2 or len(a) < 2 or len(a) != len(arrs[0]) or not np.isfinite(a).all()
@@ -369,15 +488,16 @@ def _find_scale(m):
     return None
 
 
-def _as_lanelet_events(m, tag, ev, what="qall"):
+def _as_lanelet_events(m, tag, ev, what="qall", F=None):
     """A lanelet produced or changed by the library is a lanelet: the same distance / interpolate_position events as
     for any lanelet, judged against ITS OWN current public vertices (scaled by K, see _find_scale).  Emitted only when
     an exact oracle exists (otherwise nothing is logged here; the preceding merge / mutate event carries the vertices).
     Arc lengths: 0, every vertex, every segment midpoint, full length (half-integer grid of the scaled lanelet)."""
-    fs = _find_scale(m)
+    fs = _find_scale(m, F)
     if fs is None:
         return
     K, c, le, r, hs = fs
+    F = _frame(F, scale=K)
     sd, den = 2, 2
     for h in hs:
         den = _lcm(den, 2 * h)
@@ -386,56 +506,61 @@ def _as_lanelet_events(m, tag, ev, what="qall"):
         return                                         # products would leave TLC's 32-bit integers
     cum = _int_cum(c)
     sns = sorted({2 * v for v in cum} | {2 * cum[k] + hs[k] for k in range(len(hs))})
-    isig = "interpolate/" + tag + ("" if tag.startswith("hist/") else "/")   # history sigs: no arc-length shape
+    # history sigs and non-default array representations: no arc-length shape (keeps the number of sigs small)
+    isig = "interpolate/" + tag + ("" if tag.startswith("hist/") or "@" in tag else "/")
     if what == "qi":                                   # one interior interpolation only (fills what it fills)
-        _interp_events(lambda n: m, c, le, r, [2 * cum[0] + hs[0]], sd, den, isig, ev, scale=K)
+        _interp_events(lambda n: m, c, le, r, [2 * cum[0] + hs[0]], sd, den, isig, ev, F=F)
         return
-    _distance_event(m, c, den, "distance/" + tag, ev, scale=K)
+    _distance_event(m, c, den, "distance/" + tag, ev, F=F)
     if what == "qd":
         return
-    _interp_events(lambda n: m, c, le, r, sns, sd, den, isig, ev, scale=K)
+    _interp_events(lambda n: m, c, le, r, sns, sd, den, isig, ev, F=F)
     if tag.startswith("hist/"):
         # inner_distance is not named by the statement: logged (and its cache exercised), never judged
         st, d = _call(lambda: [float(v) for v in m.inner_distance])
         ev.append({"op": "inner_distance", "sig": "inner_distance/" + tag, "st": st, "l": le, "r": r, "den": den,
-                   "scale": K, "res": [list(_grid(v * K, den)) for v in d] if st == "ok" else []})
+                   "scale": K, "res": [list(_grid(_abs_len(v, F), den)) for v in d] if st == "ok" else []})
 
 
-def _verts(arr):
-    out, exact = [], 1
+def _verts(arr, F=None):
+    """vertices in the abstract frame as integers + the precision class of the worst coordinate"""
+    out, cls = [], 2
     for p in arr:
-        kx, ex = _grid(p[0], 1)
-        ky, ey = _grid(p[1], 1)
-        exact &= ex & ey & int(len(p) == 2)
+        ax, ay = _abs_pt(p, F or _F0)
+        kx, ex = _grid(ax, 1)
+        ky, ey = _grid(ay, 1)
+        cls = min(cls, ex, ey, 2 if len(p) == 2 else 0)
         out.append([kx, ky])
-    return out, exact
+    return out, cls
 
 
 def _exec_merge(case):
     from commonroad.scenario.lanelet import Lanelet
     a, b = case["a"], case["b"]
+    F = _frame(case)
+    suf = "" if F == _F0 else "@" + _dsig(F)
     ev = []
     for order in ("fwd", "swapped"):                   # the docstring / statement do not depend on the argument order
         for warm in (0, 1):                            # the parts' cached .distance: never read / read before merging
-            la = _lanelet(1, a["l"], a["c"], a["r"], successor=[2])
-            lb = _lanelet(2, b["l"], b["c"], b["r"], predecessor=[1])
+            la = _lanelet(1, a["l"], a["c"], a["r"], F, successor=[2])
+            lb = _lanelet(2, b["l"], b["c"], b["r"], F, predecessor=[1])
             if warm:
                 _call(lambda: (la.distance, lb.distance))
             st, m = _call(lambda: Lanelet.merge_lanelets(la, lb) if order == "fwd" else Lanelet.merge_lanelets(lb, la))
             res, rlen = {"l": [], "c": [], "r": [], "ex": 0}, [0, 0]
             if st == "ok":
                 try:
-                    vl, el = _verts(m.left_vertices)
-                    vc, ec = _verts(m.center_vertices)
-                    vr, er = _verts(m.right_vertices)
-                    res = {"l": vl, "c": vc, "r": vr, "ex": el & ec & er}
-                    rlen = list(_grid(m.distance[-1], 1))
+                    vl, el = _verts(m.left_vertices, F)
+                    vc, ec = _verts(m.center_vertices, F)
+                    vr, er = _verts(m.right_vertices, F)
+                    res = {"l": vl, "c": vc, "r": vr, "ex": min(el, ec, er)}
+                    rlen = list(_grid(_abs_len(m.distance[-1], F), 1))
                 except Exception as ex:
                     st = "exc:result:" + type(ex).__name__
-            ev.append({"op": "merge", "sig": "merge/" + order, "st": st, "a": a, "b": b, "res": res, "rlen": rlen,
-                       "warm": warm})
+            ev.append(dict({"op": "merge", "sig": "merge/" + order + suf, "st": st, "a": a, "b": b, "res": res,
+                            "rlen": rlen, "warm": warm}, **_fields(F)))
             if st == "ok":
-                _as_lanelet_events(m, "merged-" + order, ev)
+                _as_lanelet_events(m, "merged-" + order + suf, ev, F=F)
     return ev
 
 
@@ -592,7 +717,7 @@ def _exec_hist(case, every=False):
         except Exception:
             vc, vl, vr, ec, el, er = [], [], [], 0, 0, 0
         ev.append({"op": "mutate", "sig": "mutate/" + last, "st": st, "act": tok, "c": vc, "l": vl, "r": vr,
-                   "ex": ec & el & er, "changed": changed})
+                   "ex": min(ec, el, er), "changed": changed})
         if every and k + 1 < len(hist):
             _as_lanelet_events(cur, tag(), ev, what="qall")
     _as_lanelet_events(cur, tag(), ev, what="qall")
@@ -618,11 +743,16 @@ def _exec_graph(case):
     succ, lens = case["succ"], case["len"]
     n = len(succ)
     pred = [[j for j in range(1, n + 1) if i in succ[j - 1]] for i in range(1, n + 1)]
-    # unit-width straight lanelets of integer length, placed apart; links only through the constructor
-    lls = [gamma.lanelet(i, x0=0.0, y0=3.0 * i, length=float(lens[i - 1]), width=1.0,
-                         predecessor=list(pred[i - 1]), successor=list(succ[i - 1])) for i in range(1, n + 1)]
+    # straight lanelets of abstract integer length (real length len * sqrt(U), arrays of representation dt), placed
+    # apart; links only through the constructor
+    F = _frame(case)
+    lls = []
+    for i in range(1, n + 1):
+        cc = [[0, 4 * i], [lens[i - 1], 4 * i]]
+        lls.append(_lanelet(i, [[x, y + 1] for x, y in cc], cc, [[x, y - 1] for x, y in cc], F,
+                            predecessor=list(pred[i - 1]), successor=list(succ[i - 1])))
     net = gamma.network(lls)
-    shape = "cyclic" if _cyclic(succ) else "acyclic"
+    shape = ("cyclic" if _cyclic(succ) else "acyclic") + ("" if F == _F0 else "@" + _dsig(F))
     ev = []
     for start, rng_ in case["queries"]:
         la = net.find_lanelet_by_id(start)
@@ -636,7 +766,7 @@ def _exec_graph(case):
                 except Exception as ex:
                     st = "exc:result:" + type(ex).__name__
             ev.append({"op": op, "sig": op + "/" + shape, "st": st, "succ": succ, "len": lens, "start": start,
-                       "range": rng_, "res": out})
+                       "range": rng_, "res": out, "U": F["U"], "dt": F["dt"]})
     return ev
 
 
@@ -645,6 +775,8 @@ def execute(case):
     kind = case["kind"]
     if kind == "poly":
         return {"ev": _exec_poly(case)}
+    if kind == "dpoly":
+        return {"ev": _exec_dpoly(case)}
     if kind == "merge":
         return {"ev": _exec_merge(case)}
     if kind == "chain":
